@@ -9,20 +9,20 @@ Require Import PV.Proofs.C03Main.
 Require Import PV.TypeVar.Base PV.Call.Model PV.Proofs.CallMain.
 
 Section CallCore.
-  Context (ct : class_table) (O : ops val) (limit : nat).
+  Context (ct : class_table) (O : ops val) (limit : nat) (none_v : val).
   (* the acceptance operation agrees with the model of T.can_assign(KnownValue(o)) *)
   Hypothesis acc_is_ca : forall T o, acc O T (VLeaf (LKnown o)) = ca ct T o.
 
   Definition kv (o : obj) : val := VLeaf (LKnown o).
 
   Theorem core_diagnosed_iff_nonmember_partial : forall s c b,
-    no_tv s = true -> cbind s c = Some b -> literal_args kv b ->
-    (forall p vs T o, In (p, BVals vs) b -> ann p = AnnTy T -> In (AV (kv o)) vs -> ok ct T o) ->
-    (diagnosed O limit s c = true <->
-     exists p vs T o, In (p, BVals vs) b /\ ann p = AnnTy T /\ In (AV (kv o)) vs /\ member ct T o = false).
+    flat_sig s = true -> cbind s c = Some b -> literal_args kv b ->
+    (forall p vs T o, In (p, BVals vs) b -> ann p = AnnE (TTy T) -> In (AV (kv o)) vs -> ok ct T o) ->
+    (diagnosed O limit none_v s c = true <->
+     exists p vs T o, In (p, BVals vs) b /\ ann p = AnnE (TTy T) /\ In (AV (kv o)) vs /\ member ct T o = false).
   Proof.
     intros s c b Hnv Hb Hlit Hok.
-    apply (nongeneric_diagnosed_iff_nonmember_on O limit kv (fun o T => member ct T o)); auto.
+    apply (nongeneric_diagnosed_iff_nonmember_on O limit none_v kv (fun o T => member ct T o)); auto.
     intros p vs T o Hin Ea Hx. unfold kv. rewrite acc_is_ca. apply ok_ca_member. eapply Hok; eassumption.
   Qed.
 End CallCore.
